@@ -11,15 +11,15 @@ from ..filtering import filter_names
 def touch_workflow(endpoints, graph, spec_hashes):
     @lru_cache(maxsize=None)
     def _visit(target):
-        for dep in graph.dependencies[target]:
-            _visit(dep)
-
         spec_hashes.update(target)
         for path in target.flattened_outputs():
             Path(path).touch(exist_ok=True)
 
-    for target in endpoints:
-        _visit(target)
+    for endpoint in endpoints:
+        # Graph.dfs() lists dependencies before dependents and is iterative, so
+        # deep dependency chains do not hit the interpreter's recursion limit.
+        for target in graph.dfs(endpoint):
+            _visit(target)
 
 
 @click.command()
